@@ -6,6 +6,7 @@ import MC.Model.Nav
 import MC.Spec.Tts
 import MC.Model.Intent
 import MC.Model.Highlight
+import MC.Spec.BrailleFinal
 open Lean
 
 namespace MC.Driver
@@ -183,7 +184,20 @@ def handleHighlight (op : String) (req : Json) : Option Json :=
       | none => panicJ "braille.rs:highlight_first_indicator"
   | _ => none
 
-def handlers : List (String → Json → Option Json) := [handleVariant, handlePreproc, handlePrefs, handleNav, handleTts, handleIntent, handleHighlight]
+/-- C07 ops -/
+def handleBrailleFinal (op : String) (req : Json) : Option Json :=
+  match op with
+  | "c07_status" =>
+    some <| okJ <| Json.arr <| (MC.Spec.BrailleFinal.codes.map fun c => Json.mkObj [
+      ("code", toJson c), ("values_ok", toJson (MC.Spec.BrailleFinal.valuesOk c)),
+      ("leaking_literals", natsJ (MC.Spec.BrailleFinal.leakingLiterals c)),
+      ("eight_dot_literals", natsJ ((MC.Gen.BrailleTabs.literalChars.getD c []).filter fun x => 0x28C0 ≤ x && x ≤ 0x28FF)),
+      ("unmatched_keys", Json.arr ((MC.Spec.BrailleFinal.unmatchedKeys c).map fun k => toJson (ofCps k)).toArray)]).toArray
+  | "c07_final" =>
+    some <| okJ <| toJson <| ofCps (MC.BrailleFinal.finalPhase (getNat req "code") (fun _ => cps (getStr req "pref")) (cps (getStr req "s")))
+  | _ => none
+
+def handlers : List (String → Json → Option Json) := [handleVariant, handlePreproc, handlePrefs, handleNav, handleTts, handleIntent, handleHighlight, handleBrailleFinal]
 
 def handle (req : Json) : Json :=
   let op := getStr req "op"
